@@ -22,7 +22,7 @@ PROPS["C07"] = dict(
           "spline_derivative: data sets of C12 (uniform / non-uniform up to 1e3 / clustered grids, 2..300 points, 9 ordinate families), "
           "linear / cubic / Akima, natural / periodic, interpolation and Fit on a coarser grid. Oracle: CalculateDerivative vs numerical "
           "derivative of Calculate; central (exact for cubics after extrapolation) inside intervals and outside the grid, one-sided 4-point "
-          "formulas at knots (either side accepted). Non-trivial: non-uniform grid or >= 3 points."),
+          "formulas at knots (either side accepted). Non-trivial: non-uniform grid or >= 3 points. Angle gradients are checked up to 0.4 degrees from the collinear geometries (5 % of the angles are 0.5..1.5 / 178.5..179.5 degrees)."),
     assumptions=COMMON_ASSUME + [
         "bonded: singular geometries excluded exactly as documented (bond angles within 3 deg of 0/180, dihedrals within 3 deg of 0/180); "
         "periodic cells in GROMACS-reduced form; every bond component < 0.45 of the cell height so that the minimum image is unambiguous",
